@@ -1100,7 +1100,7 @@ impl Interp {
     pub fn apply(&mut self, op: &Op) -> OpResult {
         let r = self.apply_one(op);
         if let Some(k) = self.read_every {
-            if !self.dead && !self.skip_reads && !matches!(op, Op::Read(_) | Op::GhostAdd { .. }) {
+            if !self.dead && !self.skip_reads && !matches!(op, Op::GhostAdd { .. }) && *op != Op::Read(k) {
                 self.facts.reads_after_every_op += 1;
                 self.do_read(k);
             }
